@@ -164,14 +164,61 @@ func (g *gen) genDelays() []*simfs.Fault {
 	return out
 }
 
+// allFaults = the plan's rules plus the one-shot rules armed by "armfault" ops.
+func (h *dbHarness) allFaults() []*simfs.Fault {
+	if len(h.dynFaults) == 0 {
+		return h.plan.Faults
+	}
+	return append(append([]*simfs.Fault(nil), h.plan.Faults...), h.dynFaults...)
+}
+
+// armFaultTemplates are the one-shot rules an "armfault" op can install right
+// before an operation: the N-th matching disk operation from now fails. This
+// places faults inside the operations that create in-flight state (the reads
+// an ingest's overlap check does, the writes of a flush, ...) instead of
+// hoping that a counter-based rule happens to fire there.
+var armFaultTemplates = map[string]struct {
+	kinds   []simfs.OpKind
+	classes []simfs.Class
+}{
+	"table-read":     {[]simfs.OpKind{simfs.OpRead}, []simfs.Class{simfs.ClsTable, simfs.ClsBlob}},
+	"table-open":     {[]simfs.OpKind{simfs.OpOpen, simfs.OpStat}, []simfs.Class{simfs.ClsTable, simfs.ClsBlob}},
+	"table-write":    {[]simfs.OpKind{simfs.OpWrite}, []simfs.Class{simfs.ClsTable, simfs.ClsBlob}},
+	"table-sync":     {[]simfs.OpKind{simfs.OpSync}, []simfs.Class{simfs.ClsTable, simfs.ClsBlob}},
+	"table-create":   {[]simfs.OpKind{simfs.OpCreate, simfs.OpLink}, []simfs.Class{simfs.ClsTable, simfs.ClsBlob}},
+	"manifest-write": {[]simfs.OpKind{simfs.OpWrite, simfs.OpSync}, []simfs.Class{simfs.ClsManifest}},
+	"dirsync":        {[]simfs.OpKind{simfs.OpSyncDir}, nil},
+	"wal-write":      {[]simfs.OpKind{simfs.OpWrite}, []simfs.Class{simfs.ClsWAL}},
+	"wal-sync":       {[]simfs.OpKind{simfs.OpSync}, []simfs.Class{simfs.ClsWAL}},
+	"remove":         {[]simfs.OpKind{simfs.OpRemove}, nil},
+}
+
+var armFaultNames = []string{"table-read", "table-read", "table-read", "table-open", "table-write", "table-sync", "table-create", "manifest-write", "dirsync", "wal-write", "wal-sync", "remove"}
+
+func (h *dbHarness) execArmFault(op *DBOp) {
+	if !h.faultProfile() || h.faultsStopped {
+		return
+	}
+	t, ok := armFaultTemplates[op.Mode]
+	if !ok {
+		simrt.Fail("tooling:badop", "unknown armfault template "+op.Mode)
+	}
+	f := &simfs.Fault{Name: "armed-" + op.Mode, Errno: "EIO", Skip: op.N, Count: 1, Kinds: simfs.KindMask(t.kinds...)}
+	if len(t.classes) > 0 {
+		f.Classes = simfs.ClassMask(t.classes...)
+	}
+	h.dynFaults = append(h.dynFaults, f)
+	h.armFaults()
+}
+
 func (h *dbHarness) faultProfile() bool { return h.plan.Profile == "iofault" }
 
 // armFaults installs the plan's rules on the current disk (after an Open).
 func (h *dbHarness) armFaults() {
-	if !h.faultProfile() || h.faultsStopped || len(h.plan.Faults) == 0 {
+	if !h.faultProfile() || h.faultsStopped || len(h.allFaults()) == 0 {
 		return
 	}
-	h.disk.SetFaults(h.plan.Faults)
+	h.disk.SetFaults(h.allFaults())
 	h.faultsArmed = true
 }
 
@@ -185,7 +232,7 @@ func (h *dbHarness) suspendFaults() func() {
 	d.ClearFaults()
 	return func() {
 		if !h.faultsStopped && h.disk == d {
-			d.SetFaults(h.plan.Faults)
+			d.SetFaults(h.allFaults())
 		}
 	}
 }
